@@ -219,17 +219,39 @@ class Task:
 
     # ---- solving ------------------------------------------------------------------------------------
     def check_goal(self, c, goal):
+        """proved / refuted / undecided.  Three attempts, so that no verdict hangs on one solver configuration being just fast enough: the
+        path's incremental solver with a short budget, a fresh default-configuration solver with the full budget, the incremental solver
+        again with the full budget."""
         c.sync()
         s = c.solver
-        s.push()
-        s.set("timeout", self.goal_timeout_ms)
-        s.add(z3.Not(goal))
-        r = s.check()
-        model = None
+
+        def incremental(ms):
+            s.push()
+            s.set("timeout", ms)
+            s.add(z3.Not(goal))
+            r = s.check()
+            m = s.model() if r == z3.sat else None
+            s.pop()
+            s.set("timeout", self.branch_timeout_ms)
+            return r, m
+
+        r, model = incremental(min(2500, self.goal_timeout_ms))
+        if r == z3.unsat:
+            return "proved", None
         if r == z3.sat:
-            model = s.model()
-        s.pop()
-        s.set("timeout", self.branch_timeout_ms)
+            return "refuted", model
+        s2 = z3.Solver()
+        s2.set("timeout", self.goal_timeout_ms)
+        s2.set("random_seed", 7)
+        for f in c.pc:
+            s2.add(f)
+        s2.add(z3.Not(goal))
+        r = s2.check()
+        if r == z3.unsat:
+            return "proved", None
+        if r == z3.sat:
+            return "refuted", s2.model()
+        r, model = incremental(self.goal_timeout_ms)
         if r == z3.unsat:
             return "proved", None
         if r == z3.sat:
@@ -243,18 +265,6 @@ class Task:
             s3.add(z3.Not(goal))
             self._dumpn = getattr(self, "_dumpn", 0) + 1
             open(os.path.join(self.dump_dir, f"q{self._dumpn}.smt2"), "w").write(s3.to_smt2())
-        # second opinion: fresh solver, different seed, no incremental state
-        s2 = z3.Solver()
-        s2.set("timeout", self.goal_timeout_ms)
-        s2.set("random_seed", 7)
-        for f in c.pc:
-            s2.add(f)
-        s2.add(z3.Not(goal))
-        r = s2.check()
-        if r == z3.unsat:
-            return "proved", None
-        if r == z3.sat:
-            return "refuted", s2.model()
         return "undecided", None
 
     def describe_model(self, c, model):
